@@ -446,55 +446,15 @@ Variable cval : Type.                          (* compiled patterns *)
 Variable content : nat -> nat -> option rule.  (* list id -> byte offset -> what the list holds there *)
 Variable compile : nat -> cval.                (* rule object -> the compilation of its pattern *)
 
-Inductive elk := LCache | LFile (l : nat) | LRule (r : nat).
-Lemma elk_eq_dec (a b : elk) : {a = b} + {a <> b}.
-Proof. decide equality; apply Nat.eq_dec. Defined.
-Inductive ecomp :=
-| CCache (m : nat * nat -> option rule)        (* RuleStorage.cache *)
-| CFile (offset : nat)                         (* the shared file position of a FileRuleList *)
-| CRule (c : option cval).                     (* NetworkRule.regex / invalid *)
-Inductive eout := OUnit | ORule (r : option rule) | OVal (v : cval).
-
-Definition upd2 (m : nat * nat -> option rule) (i : nat * nat) (v : option rule) : nat * nat -> option rule :=
-  fun j => if (Nat.eqb (fst j) (fst i) && Nat.eqb (snd j) (snd i))%bool then v else m j.
-
-Definition cache_read (i : nat * nat) : act ecomp eout :=
-  fun c => (c, match c with CCache m => ORule (m i) | _ => OUnit end).
-Definition cache_write (i : nat * nat) (r : rule) : act ecomp eout :=
-  fun c => (match c with CCache m => CCache (upd2 m i (Some r)) | _ => c end, OUnit).
-Definition file_seek (off : nat) : act ecomp eout := fun _ => (CFile off, OUnit).
-(* reads at the CURRENT shared position: this is the hazard the list mutex removes *)
-Definition file_read (l : nat) : act ecomp eout :=
-  fun c => (c, match c with CFile off => ORule (content l off) | _ => OUnit end).
-Definition rule_prepare (r : nat) : act ecomp eout :=
-  fun c => match c with
-           | CRule (Some v) => (c, OVal v)
-           | CRule None => (CRule (Some (compile r)), OVal (compile r))
-           | _ => (c, OUnit)
-           end.
-
+Notation ecomp := (Conc.ecomp rule cval).
+Notation eout := (Conc.eout rule cval).
 Notation etask := (task elk ecomp eout).
-Definition T_lookup (i : nat * nat) : etask := {| t_lock := LCache; t_write := false; t_acts := [cache_read i] |}.
-Definition T_load (i : nat * nat) : etask :=
-  {| t_lock := LFile (fst i); t_write := true; t_acts := [file_seek (snd i); file_read (fst i)] |}.
-Definition T_insert (i : nat * nat) (r : rule) : etask :=
-  {| t_lock := LCache; t_write := true; t_acts := [cache_write i r] |}.
-Definition T_prepare (r : nat) : etask := {| t_lock := LRule r; t_write := true; t_acts := [rule_prepare r] |}.
-
-(* what a goroutine may do next, given what it has seen: look up, load, prepare at will; insert only a rule it
-   has itself loaded from that index (RetrieveRule inserts what list.RetrieveRule just returned) *)
-Definition allowed (h : list (etask * list eout)) (tk : etask) : Prop :=
-  (exists i, tk = T_lookup i) \/ (exists i, tk = T_load i) \/ (exists r, tk = T_prepare r) \/
-  (exists i r, tk = T_insert i r /\ In (T_load i, [OUnit; ORule (Some r)]) h).
-
-Definition EGood (k : elk) (c : ecomp) : Prop :=
-  match k, c with
-  | LCache, CCache m => forall i r, m i = Some r -> content (fst i) (snd i) = Some r
-  | LFile _, CFile _ => True
-  | LRule r, CRule c => c = None \/ c = Some (compile r)
-  | _, _ => False
-  end.
-
+Notation EGood := (Conc.EGood rule cval content compile).
+Notation allowed := (Conc.allowed rule cval content compile).
+Notation T_lookup := (Conc.T_lookup rule cval).
+Notation T_load := (Conc.T_load rule cval content).
+Notation T_insert := (Conc.T_insert rule cval).
+Notation T_prepare := (Conc.T_prepare rule cval compile).
 Variable progs : tid -> list (etask * list eout) -> option etask.
 Hypothesis progs_allowed : forall t h tk, consistent elk ecomp eout progs t h -> progs t h = Some tk -> allowed h tk.
 
@@ -573,10 +533,10 @@ Notation xout := (eout nat nat).
 Definition strat (i : nat * nat) (r : nat) (h : list (xtask * list xout)) : option xtask :=
   match h with
   | [] => Some (T_lookup nat nat i)
-  | [(_, [ORule _ _ None])] => Some (T_load nat nat ex_content i)
-  | [(_, [ORule _ _ (Some _)])] => Some (T_prepare nat nat ex_compile r)
-  | [(_, [OUnit _ _; ORule _ _ (Some x)]); (_, [ORule _ _ None])] => Some (T_insert nat nat i x)
-  | [(_, [OUnit _ _]); (_, [OUnit _ _; ORule _ _ (Some _)]); (_, [ORule _ _ None])] => Some (T_prepare nat nat ex_compile r)
+  | [(_, [ORule None])] => Some (T_load nat nat ex_content i)
+  | [(_, [ORule (Some _)])] => Some (T_prepare nat nat ex_compile r)
+  | [(_, [OUnit; ORule (Some x)]); (_, [ORule None])] => Some (T_insert nat nat i x)
+  | [(_, [OUnit]); (_, [OUnit; ORule (Some _)]); (_, [ORule None])] => Some (T_prepare nat nat ex_compile r)
   | _ => None
   end.
 Definition ex_progs (t : tid) := strat (1, t mod 3) (t mod 2).
@@ -598,7 +558,7 @@ Proof.
 Qed.
 
 Definition ex_c0 (k : elk) : ecomp nat nat :=
-  match k with LCache => CCache _ _ (fun _ => None) | LFile _ => CFile _ _ 0 | LRule _ => CRule _ _ None end.
+  match k with LCache => CCache (fun _ => None) | LFile _ => CFile 0 | LRule _ => CRule None end.
 Lemma ex_c0_good k : EGood nat nat ex_content ex_compile k (ex_c0 k).
 Proof. destruct k; cbn; auto. discriminate. Qed.
 
@@ -608,8 +568,8 @@ Definition ex_sched : list tid :=
 Definition ex_final := run elk elk_eq_dec (ecomp nat nat) (eout nat nat) (init elk (ecomp nat nat) (eout nat nat) ex_c0 ex_progs) ex_sched.
 Example ex_runs :
   map (fun t => map snd (hist (th ex_final t))) [0; 1; 2] =
-  [ [[OVal _ _ 1000]; [OUnit _ _]; [OUnit _ _; ORule _ _ (Some 100)]; [ORule _ _ None]];
-    [[OVal _ _ 1001]; [OUnit _ _]; [OUnit _ _; ORule _ _ (Some 101)]; [ORule _ _ None]];
-    [[OVal _ _ 1000]; [OUnit _ _]; [OUnit _ _; ORule _ _ (Some 102)]; [ORule _ _ None]] ].
+  [ [[OVal 1000]; [OUnit]; [OUnit; ORule (Some 100)]; [ORule None]];
+    [[OVal 1001]; [OUnit]; [OUnit; ORule (Some 101)]; [ORule None]];
+    [[OVal 1000]; [OUnit]; [OUnit; ORule (Some 102)]; [ORule None]] ].
 Proof. vm_compute. reflexivity. Qed.
 End Example.
